@@ -1,6 +1,8 @@
 """C01 — JWS verification returns only authentically signed content."""
 from __future__ import annotations
 
+import copy
+
 from harness import jwscases as J
 
 RULE = ("reference-signed JWS for all 14 algorithms x {compact, flattened, general, RFC7797 compact, RFC7797 JSON} with "
@@ -27,6 +29,16 @@ def build(ctx, rounds):
                                      "valid-via-7797-entry", c.meta))
         for c in valid:
             cases += J.tamper(c, ctx.rng, valid)
+        # the same tokens verified against a key SET holding just the right key, given directly and through a callable:
+        # a token without kid resolves to the only member - and what is returned is still the header that was signed
+        from joserfc.jwk import KeySet
+        for c in ctx.rng.sample(valid, min(len(valid), 40 if ctx.tier == "quick" else 400)):
+            if isinstance(c.key, KeySet) or isinstance(c.key, tuple):
+                continue
+            for form in ("set", "callable-set"):
+                ks = KeySet([c.key])
+                v = c.value if isinstance(c.value, bytes) else copy.deepcopy(c.value)
+                cases.append(J.VCase(c.kind, v, ks if form == "set" else ("callable", ks), c.reg, c.detached, f"valid-single-key-{form}", c.meta))
     return cases
 
 
